@@ -1,22 +1,9 @@
 ---- MODULE MC_HttpRun ----
 EXTENDS MC_Http
-R1 == [id |-> "R1", qc |-> TRUE, ts |-> <<T("MIXED", "none"), T("SSE", "none"), T("WS", "none"), T("FORM", "json+other"), T("POST", "gqlresp"), T("GET", "other"), T("MULTIPART", "json"), T("OPTIONS", "none")>>]
-R2 == [id |-> "R2", qc |-> TRUE, ts |-> <<T("POST", "gqlresp"), T("GET", "json"), T("WS", "none"), T("MULTIPART", "json+other"), T("GRAPHQL", "json+other"), T("OPTIONS", "none"), T("SSE", "none")>>]
-R3 == [id |-> "R3", qc |-> TRUE, ts |-> <<T("POST", "gqlresp"), T("GET", "gqlresp"), T("GRAPHQL", "lcjson"), T("FORM", "none"), T("WS", "none"), T("OPTIONS", "none"), T("MIXED", "none")>>]
-R4 == [id |-> "R4", qc |-> FALSE, ts |-> <<T("MULTIPART", "gqlresp"), T("GET", "gqlresp"), T("MIXED", "none"), T("SSE", "none"), T("FORM", "other"), T("POST", "json+other")>>]
-R5 == [id |-> "R5", qc |-> TRUE, ts |-> <<T("MULTIPART", "gqlresp"), T("GRAPHQL", "json"), T("OPTIONS", "none"), T("GET", "other"), T("FORM", "gqlresp"), T("SSE", "none"), T("WS", "none"), T("POST", "lcjson")>>]
-R6 == [id |-> "R6", qc |-> TRUE, ts |-> <<T("FORM", "lcjson"), T("OPTIONS", "none"), T("GET", "json"), T("MULTIPART", "gqlresp"), T("POST", "lcjson"), T("GRAPHQL", "json+other"), T("WS", "none")>>]
-ASSUME PrintT(ToJson([servers |-> {R1, R2, R3, R4, R5, R6}]))
+R1 == [id |-> "R1", qc |-> FALSE, ts |-> <<T("MIXED", "none"), T("MULTIPART", "none"), T("POST", "other"), T("FORM", "lcjson"), T("SSE", "none"), T("WS", "none"), T("GRAPHQL", "gqlresp")>>]
+ASSUME PrintT(ToJson([servers |-> {R1}]))
 OnlyS1 == {S1}
 OnlyS2 == {S2}
 OnlyS3 == {S3}
-OnlyS4 == {S4}
-OnlyS5 == {S5}
-OnlyS6 == {S6}
 OnlyR1 == {R1}
-OnlyR2 == {R2}
-OnlyR3 == {R3}
-OnlyR4 == {R4}
-OnlyR5 == {R5}
-OnlyR6 == {R6}
 ====
